@@ -147,7 +147,7 @@ Fixpoint line_number_loop (src : string) (head : Z) (rs : list (Z * N))
           let comment2 := if nlb then false else comment1 in
           let line2 := if nlb then (line + 1)%Z else line in
           let col2 := if nlb then 0%Z else col in
-          if (loc <=? head)%Z then line_number_loop src head rest comment2 loc line2 col2
+          if (i <? head)%Z then line_number_loop src head rest comment2 loc line2 col2
           else if is_space_rune ch then line_number_loop src head rest comment2 loc line2 col2
           else if comment2 then line_number_loop src head rest comment2 loc line2 col2
           else Ok ((line2 + 1)%Z, col2)
